@@ -80,6 +80,10 @@ var registry = map[string]named{
 		fld("Name", nm("c10types.Name")), fld("Next", ptrT(nm("c10types.Inner"))), fld("Kids", sliceT(nm("c10types.Inner"))),
 		fld("Attr", mapT(nm("c10types.Name"), nm("c10types.Inner"))), fld("P", ptrT(sc("string"))),
 		fld("C", ptrT(nm("c10types.Color"))), fld("In", nm("c10types.Inner")))},
+	"c10types.Box": {RT: reflect.TypeOf(c10types.Box{}), Under: structT(
+		fld("P", nm("image.Point")), fld("D", nm("time.Duration")), fld("In", nm("c10types.Inner")), fld("N", sc("int")))},
+	"c10types.Wrap": {RT: reflect.TypeOf(c10types.Wrap{}), Under: structT(
+		fld("B", nm("c10types.Box")), fld("U", nm("url.Values")), fld("Q", ptrT(nm("image.Point"))))},
 	// types from other packages
 	"time.Duration": {RT: reflect.TypeOf(time.Duration(0)), Under: sc("int64")},
 	"time.Month":    {RT: reflect.TypeOf(time.Month(0)), Under: sc("int")},
